@@ -142,6 +142,24 @@ def run(ctx, budget):
     L = 4 if ctx.thorough else 3
     for script in itertools.product(alphabet, repeat=L):
         scripts.append((lg, list(script) + [('r',), ('r',)]))
+    # directed: every spelling of a type filter combined, in both orders, with time ranges measured from the start of the log
+    for lg2 in logs:
+        tys = sorted(set(m['type'] for m in lg2[2]))
+        tt = [m['timeNs'] / rc.NS for m in lg2[2] if m['timeNs'] is not None]
+        if not tys or not tt:
+            continue
+        span = max(tt) - min(tt)
+        rel = [(0.25, None), (None, 1.0), (0.5, 2.0), (1.0, None), (span / 2 // 0.25 * 0.25, None)]
+        for ty in (tys if ctx.thorough else rng.sample(tys, min(3, len(tys)))):
+            for style in (0, 1, 2):
+                for a, b in (rel if ctx.thorough else rng.sample(rel, 2)):
+                    T = ('T', ('r', a, b, None))
+                    A = ('T', ('a', None if a is None else min(tt) + a, None if b is None else min(tt) + b, None))
+                    t = ('t', [ty], style)
+                    for script in ([t, T], [T, t], [t, A], [t, ('r',), T], [t, T, ('c',)], [t, ('u',), T]):
+                        scripts.append((lg2, script + [('r',)] * 3))
+                        ctx.count('directed_type_then_range_scripts')
+
     def untuple(o):
         return tuple(tuple(x) if isinstance(x, list) and o[0] == 'T' else x for x in o)
     for k, r in enumerate(fv.corpus('C11')):      # regression corpus first
